@@ -166,6 +166,40 @@ def cli_sweep(r, n_inputs):
                     stats["reported"] = True
                     r.violation("property-failure", {"suite": "cli_sweep", "method": m, "detail": info}, found_input=True,
                                 what=f"method {m} from the command line: {info}"[:400])
+    # several methods at once, in both orders, mixing methods that remap peptides (need the FASTA map) with ones that do not
+    pairs = [("Perc", "savitski_no_remap,picked_protein_group"), ("Perc", "picked_protein_group,savitski_no_remap"),
+             ("Perc", "maxquant_perc_best,savitski,classic_no_grouping_no_remap"),
+             ("MaxQuant", "picked_protein_group_mq_input_no_remap,picked_protein_group_mq_input"),
+             ("MaxQuant", "picked_protein_group_mq_input,picked_protein_group_mq_input_no_remap"),
+             ("MaxQuant", "maxquant,savitski_mq_mult")]
+    names_all = set(names)
+    dm = tempfile.mkdtemp(prefix="c18m_", dir=core.scratch())
+    filesm, _ = make_inputs(dm, r.rng)
+    stats["multi_method_runs"] = 0
+    for kind, ms in pairs:
+        if not all(m in names_all for m in ms.split(",")):
+            continue
+        sub = tempfile.mkdtemp(prefix="pair_", dir=dm)
+        outp = os.path.join(sub, "pg.txt")
+        rc, err = run_cli([FLAG[kind], filesm[kind], "--fasta", filesm["fasta"], "--methods", ms, "--protein_groups_out", outp], env, cwd=sub)
+        outs = [f for f in os.listdir(sub) if f.startswith("pg_")]
+        stats["multi_method_runs"] += 1
+        if "not enough values to unpack" in err or "too many indices" in err:
+            continue
+        bad = None
+        labels = {pgm.parse_method_toml(m, False).label for m in ms.split(",")}   # methods sharing a label share an output file
+        if rc != 0 or len(outs) != len(labels):
+            bad = f"exit {rc}, {len(outs)} tables for {ms}: {err[-300:]}"
+        else:
+            for f in outs:
+                h, rows = read_table(os.path.join(sub, f))
+                v = table_violation(h, rows)
+                if v:
+                    bad = f"{f}: {v}"
+        if bad and not stats.get("reported"):
+            stats["reported"] = True
+            r.violation("property-failure", {"suite": "cli_sweep", "methods": ms, "detail": bad}, found_input=True,
+                        what=f"methods given at once ({ms}): {bad}"[:400])
     # two methods at once
     d = tempfile.mkdtemp(prefix="c18b_", dir=core.scratch())
     files, _ = make_inputs(d, r.rng)
